@@ -109,7 +109,7 @@ def g_cname(s, pub, is_func, is_del):
 
 
 def g_obs(lst):
-    return g_list(lst, lambda t: '(%s, %s, %s, %s)' % (g_str(t[0]), g_opt(t[1], g_str), g_str(t[2]), g_nat(t[3])),
+    return g_list(lst, lambda t: '(%s, %s, %s, %s)' % (g_str(t[0]), ('(@None str)' if t[1] is None else g_opt(t[1], g_str)), g_str(t[2]), g_nat(t[3])),
                   'str * option str * str * nat')
 
 
